@@ -450,6 +450,62 @@ func TestC10(t *testing.T) {
 		run.Eval("conc|" + pc.Sig)
 	}
 	c10Repeat(run, r, created)
+	c10SameTypeHistory(run, r, created)
+}
+
+// c10SameTypeHistory: payloads of one Go type whose interface-typed field holds something else every time - a
+// number, a string, then a map, a pointer to a struct, a slice. Whatever a node (or the package) learnt from the
+// payloads it has seen, every payload is copied before it is filtered: the one it is given stays as it was.
+func c10SameTypeHistory(run *rt.Run, r *rt.Rand, created time.Time) {
+	type sub struct {
+		S string `class:"secret"`
+		N int
+	}
+	type rec struct {
+		ID      string `class:"public"`
+		Details interface{}
+		Extra   interface{}
+	}
+	mk := func(k int, tag string) *rec {
+		p := &rec{ID: "id-" + tag}
+		vals := []func() interface{}{
+			func() interface{} { return 5 },
+			func() interface{} { return "plain-" + tag },
+			func() interface{} { return map[string]interface{}{"secret": "CANARY-" + tag, "n": 3} },
+			func() interface{} { return &sub{S: "CANARY-" + tag, N: 4} },
+			func() interface{} { return []string{"CANARY-" + tag, "b"} },
+			func() interface{} { return map[string][]byte{"k": []byte("CANARY-" + tag)} },
+		}
+		p.Details = vals[k%len(vals)]()
+		p.Extra = vals[(k/len(vals))%len(vals)]()
+		return p
+	}
+	n := run.N(72, 2000)
+	shared := buildFilter(encCfg{Wrapper: "present"})
+	for i := 0; i < n && !run.Stop(); i++ {
+		tag := fmt.Sprint(i)
+		in, twin := mk(i, tag), mk(i, tag)
+		f := shared
+		if r.Bool() {
+			f = buildFilter(encCfg{Wrapper: "present"})
+		}
+		res := callProcess(f, &eventlogger.Event{Type: "t", CreatedAt: created, Payload: in})
+		run.Eval(fmt.Sprintf("same-type-history|%T|%T", in.Details, in.Extra))
+		if !reflect.DeepEqual(in, twin) {
+			run.Violation("shape:input-modified:same-type-history", fmt.Sprintf("Process modified the payload it was given (payload number %d of one struct type, interface-typed fields holding %T and %T)", i+1, twin.Details, twin.Extra),
+				map[string]any{"before": renderS(twin, false), "after": renderS(in, false), "panic": res.Panic, "err": fmt.Sprint(res.Err)})
+			return
+		}
+		if res.Out != nil && res.Err == nil {
+			if got, ok := res.Out.Payload.(*rec); !ok {
+				run.Violation("shape:type-changed", fmt.Sprintf("output payload type %T", res.Out.Payload), nil)
+				return
+			} else if got.ID != twin.ID || reflect.TypeOf(got.Details) != reflect.TypeOf(twin.Details) || reflect.TypeOf(got.Extra) != reflect.TypeOf(twin.Extra) {
+				run.Violation("shape:type-changed:iface-fields", fmt.Sprintf("payload number %d: public id %q -> %q, interface-typed fields %T,%T -> %T,%T", i+1, twin.ID, got.ID, twin.Details, twin.Extra, got.Details, got.Extra), nil)
+				return
+			}
+		}
+	}
 }
 
 // c10Repeat: one Filter node is handed the very same *Event more than once - a node shared by several pipelines
@@ -643,5 +699,37 @@ func c10Proto(run *rt.Run, r *rt.Rand) {
 			}
 		}
 		run.Eval("proto-nonstring|" + cfg.String())
+		// an application type that embeds a generated message (and so satisfies proto.Message itself) is a struct
+		// payload like any other: same dynamic type, its own public and non-string fields preserved
+		if i%4 == 0 {
+			ea := &embAudit{Struct: mk(), Actor: "alice", Attempt: 3 + i}
+			etwin := &embAudit{Struct: proto.Clone(ea.Struct).(*structpb.Struct), Actor: ea.Actor, Attempt: ea.Attempt}
+			eres := callProcess(buildFilter(cfg), &eventlogger.Event{Type: "t", Payload: ea})
+			if !proto.Equal(ea.Struct, etwin.Struct) || ea.Actor != etwin.Actor || ea.Attempt != etwin.Attempt {
+				run.Violation("shape:input-modified:proto", "Process modified a payload that embeds a protobuf message", map[string]any{"config": cfg.String()})
+			}
+			if eres.Panic == "" && eres.Err == nil && eres.Out != nil && !cfg.allNone() {
+				got, ok := eres.Out.Payload.(*embAudit)
+				switch {
+				case !ok:
+					run.Violation("shape:type-changed", fmt.Sprintf("a payload of type %T (a struct embedding a generated protobuf message) was forwarded as %T", ea, eres.Out.Payload), map[string]any{"config": cfg.String()})
+				case got.Attempt != etwin.Attempt:
+					run.Violation("shape:non-string-not-preserved:proto", fmt.Sprintf("the int field of a struct embedding a protobuf message came out as %d, given %d", got.Attempt, etwin.Attempt), map[string]any{"config": cfg.String()})
+				case got.Actor != etwin.Actor:
+					if op, set := cfg.Overrides["public"]; !set || op == "" {
+						run.Violation("shape:public-not-preserved", fmt.Sprintf("the public field of a struct embedding a protobuf message came out as %q, given %q", got.Actor, etwin.Actor), map[string]any{"config": cfg.String()})
+					}
+				}
+			}
+			run.Eval("proto-embedded|" + cfg.String())
+		}
 	}
+}
+
+// embAudit carries a generated protobuf message together with data of its own; the message is embedded, as one
+// does to give a generated type more methods.
+type embAudit struct {
+	*structpb.Struct
+	Actor   string `class:"public"`
+	Attempt int
 }
